@@ -124,7 +124,13 @@ func (node *DHTNode) ListNodeInfos(key []byte, n int) (ret []NodeInfo) {
 }
 
 func (node *DHTNode) closerNodes(key []byte) (ret []NodeInfo) {
-	node.peers.ForEachCloser(key, func(peerEnt Entry[[]byte]) bool {
+	// not peers.ForEachCloser: the cache's locus is only a prefix of LocalID when PeerCacheSize < 256,
+	// and the peers which share that prefix would never be reported.
+	localID := node.params.LocalID[:]
+	node.peers.ForEach(key, func(peerEnt Entry[[]byte]) bool {
+		if !DistanceLt(key, peerEnt.Key, localID) {
+			return false
+		}
 		ret = append(ret, NodeInfo{
 			ID:   peerIDFromBytes(peerEnt.Key),
 			Info: peerEnt.Value,
